@@ -36,7 +36,7 @@ func TestC12(t *testing.T) {
 	r := mon.NewRunner(t, "C12")
 	var cases []mon.CaseSpec
 	trans := hx.Transports
-	reps := r.Pick(1, 8)
+	reps := r.Pick(1, 40)
 	for rep := 0; rep < reps; rep++ {
 		for _, tr := range append(append([]string{}, trans...), "vt") {
 			for _, e := range listenerErrs {
